@@ -97,8 +97,9 @@ fn var_value(var: usize, class: u8) -> Option<String> {
         0 => None,
         1 => Some(String::new()),
         2 => Some("  ".to_string()),
-        3 => Some(format!("http://{up}-{name}.test:3128")),
-        4 => Some(format!("https://{up}-{name}.test")),
+        // scheme names are case-insensitive: some variables spell theirs in upper or mixed case
+        3 => Some(format!("{}://{up}-{name}.test:3128", if var == 1 || var == 4 { "HTTP" } else { "http" })),
+        4 => Some(format!("{}://{up}-{name}.test", if var == 2 || var == 5 { "Https" } else { "https" })),
         5 => Some("socks5://socks.test:1080".to_string()),
         _ => Some("::not a url".to_string()),
     }
